@@ -39,7 +39,13 @@ def main(tier):
         for name in names:
             d = os.path.join(seeded, name)
             meta = json.load(open(os.path.join(d, "meta.json")))
-            checks = meta.get("detected_by") or [meta["property"]]
+            if meta.get("out_of_domain"):
+                print("sensitivity %s: outside the properties' stated domain "
+                      "(skipped): %s" % (name, meta.get("note", "")[:120]))
+                continue
+            import re as _re
+            checks = meta.get("detected_by") or [
+                _re.search(r"C\d\d", meta["property"]).group(0)]
             sh("git -C %s checkout -- ." % wt)
             r = sh("git -C %s apply %s/patch.diff" % (wt, d))
             if r.returncode:
